@@ -1801,6 +1801,19 @@ impl Element {
                         }
                         overall_version_mask &= value_version_mask;
                     }
+                } else {
+                    // the element type used in the target version does not have this attribute at all
+                    let version_mask = self
+                        .element_type()
+                        .find_attribute_spec(attribute.attrname)
+                        .map_or(0, |spec| spec.version)
+                        & !(target_version as u32);
+                    overall_version_mask &= version_mask;
+                    compat_errors.push(CompatibilityError::IncompatibleAttribute {
+                        element: self.clone(),
+                        attribute: attribute.attrname,
+                        version_mask,
+                    });
                 }
             }
 
